@@ -31,6 +31,9 @@ pub enum FamId {
     Nano,
     /// the toy scheme with a 64-byte public key (long-form RLP string header) and 64-byte signatures
     Big,
+    /// the toy scheme with a 5-byte public key and an EMPTY signature (records authenticated out of band, like
+    /// go-ethereum's NullID test scheme): sign_v4 returns no bytes, verify_v4 accepts exactly the empty signature
+    Null,
     /// the toy scheme (4-byte key, 6-byte signature) whose `enr_key()` COLLIDES with a reserved name: the
     /// public key is stored under `ip6`, where it is not a well-typed address.  Not in `ALL_FAMS`: used
     /// by C14 only (typed accessors / reachability flags against the raw content); such records are
@@ -38,7 +41,7 @@ pub enum FamId {
     Clash,
 }
 pub const BUILTIN_FAMS: [FamId; 5] = [FamId::K256, FamId::Libsecp, FamId::Ed, FamId::CombinedSecp, FamId::CombinedEd];
-pub const ALL_FAMS: [FamId; 11] = [
+pub const ALL_FAMS: [FamId; 12] = [
     FamId::K256,
     FamId::Libsecp,
     FamId::Ed,
@@ -50,12 +53,13 @@ pub const ALL_FAMS: [FamId; 11] = [
     FamId::Mid,
     FamId::Nano,
     FamId::Big,
+    FamId::Null,
 ];
 
 impl FamId {
     /// the toy scheme (public key under "t")
     pub fn is_toy(self) -> bool {
-        matches!(self, FamId::Tiny | FamId::Mid | FamId::Nano | FamId::Big | FamId::Clash)
+        matches!(self, FamId::Tiny | FamId::Mid | FamId::Nano | FamId::Big | FamId::Clash | FamId::Null)
     }
     pub fn scheme(self) -> Scheme {
         match self {
@@ -69,7 +73,7 @@ impl FamId {
             FamId::Libsecp => Some(KeyType::Libsecp),
             FamId::Ed => Some(KeyType::Ed),
             FamId::CombinedSecp | FamId::CombinedEd => Some(KeyType::Combined),
-            FamId::Var | FamId::Wide | FamId::Tiny | FamId::Mid | FamId::Nano | FamId::Big | FamId::Clash => None,
+            FamId::Var | FamId::Wide | FamId::Tiny | FamId::Mid | FamId::Nano | FamId::Big | FamId::Clash | FamId::Null => None,
         }
     }
     /// name of the public-key entry this family stores
@@ -94,6 +98,7 @@ impl FamId {
             FamId::Nano => "nanokey",
             FamId::Big => "bigkey",
             FamId::Clash => "clashkey",
+            FamId::Null => "nullsig",
         }
     }
     /// length of signatures of this family, None = variable
@@ -102,6 +107,7 @@ impl FamId {
             FamId::Var | FamId::Wide | FamId::Mid => None,
             FamId::Tiny | FamId::Clash => Some(6),
             FamId::Nano => Some(1),
+            FamId::Null => Some(0),
             _ => Some(64),
         }
     }
@@ -406,6 +412,7 @@ pub fn toy_pk(fam: FamId, secret: &[u8; 32]) -> Vec<u8> {
     let h = keccak256(&[b"tiny-pk".as_ref(), secret].concat());
     match fam {
         FamId::Nano => vec![h[0] & 0x7f],
+        FamId::Null => h[..5].to_vec(),
         FamId::Big => {
             // 64, 65, 66, 96 or 130 bytes, chosen by the secret (a BLS-sized key is 96 bytes)
             let len = [64usize, 65, 66, 96, 130][(secret[30] % 5) as usize];
@@ -442,6 +449,7 @@ pub fn toy_sign(fam: FamId, pk: &[u8], msg: &[u8]) -> Vec<u8> {
     match fam {
         FamId::Mid => tiny_sign_len(pk, msg, mid_len(msg)),
         FamId::Nano => tiny_sign_len(pk, msg, 1),
+        FamId::Null => vec![],
         FamId::Big => tiny_sign_len(pk, msg, 64),
         _ => tiny_sign(pk, msg),
     }
@@ -451,6 +459,7 @@ pub fn tiny_verify(pk: &[u8], msg: &[u8], sig: &[u8]) -> crypto::Verdict {
     let ok = match pk.len() {
         4 => sig == tiny_sign(pk, msg).as_slice() || (sig.len() == mid_len(msg) && sig == tiny_sign_len(pk, msg, sig.len()).as_slice()),
         1 => pk[0] < 0x80 && sig == tiny_sign_len(pk, msg, 1).as_slice(),
+        5 => sig.is_empty(),
         64..=130 => sig == tiny_sign_len(pk, msg, 64).as_slice(),
         _ => false,
     };
@@ -477,7 +486,7 @@ impl EnrKey for TinyKey {
         };
         let it = crate::refmodel::rlp::decode_exact(raw).map_err(|_| alloy_rlp::Error::Custom("bad rlp"))?;
         let b = it.as_str().ok_or(alloy_rlp::Error::Custom("not a string"))?;
-        if !(b.len() == 4 || (64..=130).contains(&b.len()) || (b.len() == 1 && b[0] < 0x80)) {
+        if !(b.len() == 4 || b.len() == 5 || (64..=130).contains(&b.len()) || (b.len() == 1 && b[0] < 0x80)) {
             return Err(alloy_rlp::Error::Custom("bad key length"));
         }
         Ok(TinyPub(b.to_vec(), clash))
